@@ -33,9 +33,11 @@ Relations == {"none", "div-x", "mul-x", "shift-1", "shift+1", "neg", "plus-c", "
               "garbage-after-identity",       \* a malformed vector: A_0, the identity, then bytes that encode no point; every share is a_0
               "two-answers-before-vector",    \* two receivers are sent malformed shares and complain; both complaints are answered before the
                                               \* vector is broadcast, one answer right, one wrong
+              "const-at-target",              \* with shape horner-double: the receiver at the special point is sent a_0 instead of P(x)
               "answer-complaint-vector"}      \* a receiver complains about a malformed share; the others see the dealer's wrong answer first, then
                                               \* the complaint, then the vector
 Shapes == {"generic", "zero-const", "zero-middle", "zero-lead", "root", "equal", "rminus1", "two-zeros", "cancel",
+           "horner-double",   \* a_(t-1) = x.a_t at the point x of the first real receiver: the Horner evaluation there starts by adding a point to itself
            "own-root"}   \* Joint-Feldman, a rushing dealer: P(own point) = minus the sum of the shares the others sent it: its own summed share is zero
 \* (protocol, n, t, reference dealer, participant that is not running or -1)
 Nets == {<<"qual", 3, 1, 0, -1>>, <<"qual", 4, 2, 1, -1>>, <<"qual", 4, 2, 3, 2>>, <<"qual", 5, 3, 0, 4>>, <<"qual", 6, 2, 5, 1>>,
@@ -54,6 +56,7 @@ RelApplicable(shape, rel) ==
     [] rel = "garbage-after-identity" -> shape = "zero-middle"
     [] rel = "two-answers-before-vector" -> shape = "generic"
     [] rel = "answer-complaint-vector" -> shape = "generic"
+    [] rel = "const-at-target" -> shape = "horner-double"
     [] OTHER         -> shape = "generic"
 Init == c \in {[proto |-> net[1], n |-> net[2], t |-> net[3], dealer |-> net[4], silent |-> net[5], shape |-> s, order |-> o, relation |-> r] :
                  net \in Nets, s \in Shapes, o \in 0..2, r \in Relations}
